@@ -31,6 +31,17 @@ fn prop(mode: Mode) -> &'static str {
     }
 }
 
+/// What the LEDGER reports (an object destroyed twice, a dead or uninitialised object used) also
+/// contradicts C02 as it is stated ("destroyed exactly once overall", "no operation reads ... a slot
+/// that does not currently hold a live element") when the comparisons are lawful - whether or not user
+/// code panicked on the way.
+fn prop_ledger(mode: Mode) -> &'static str {
+    match mode {
+        Mode::Inject => "C04,C02",
+        Mode::Adversarial => "C17",
+    }
+}
+
 /// What must hold for the survivors after a panic / under a lying Eq.
 fn judge_safety(
     mode: Mode,
@@ -82,7 +93,7 @@ fn judge_safety(
     }
     let viol = ledger::with(|l| l.viol.clone());
     for v in viol.iter().skip(*viol_seen) {
-        fails.push(Fail { props: p.into(), msg: v.clone() });
+        fails.push(Fail { props: prop_ledger(mode).into(), msg: v.clone() });
     }
     *viol_seen = viol.len();
     for n in ctx.notes.drain(..) {
@@ -135,7 +146,7 @@ fn further_use_map<const N: usize>(mode: Mode, cage: &mut Cage<Map<Key, Val, N>>
     }
     let viol = ledger::with(|l| l.viol.clone());
     for v in viol.iter().skip(*viol_seen) {
-        fails.push(Fail { props: p.into(), msg: format!("during further use: {v}") });
+        fails.push(Fail { props: prop_ledger(mode).into(), msg: format!("during further use: {v}") });
     }
     *viol_seen = viol.len();
     drop(ctx.held.drain(..));
@@ -176,7 +187,7 @@ fn further_use_set<const N: usize>(mode: Mode, cage: &mut Cage<Set<Key, N>>, vio
     }
     let viol = ledger::with(|l| l.viol.clone());
     for v in viol.iter().skip(*viol_seen) {
-        fails.push(Fail { props: p.into(), msg: format!("during further use: {v}") });
+        fails.push(Fail { props: prop_ledger(mode).into(), msg: format!("during further use: {v}") });
     }
     *viol_seen = viol.len();
 }
@@ -184,7 +195,7 @@ fn further_use_set<const N: usize>(mode: Mode, cage: &mut Cage<Set<Key, N>>, vio
 fn end_viol(mode: Mode, viol_seen: &mut usize, fails: &mut Vec<Fail>) {
     let viol = ledger::with(|l| l.viol.clone());
     for v in viol.iter().skip(*viol_seen) {
-        fails.push(Fail { props: prop(mode).into(), msg: format!("at the final drop: {v}") });
+        fails.push(Fail { props: prop_ledger(mode).into(), msg: format!("at the final drop: {v}") });
     }
     *viol_seen = viol.len();
 }
